@@ -4,6 +4,7 @@ import Driver.Queue
 import Driver.SlotMap
 import Driver.FlatMap
 import Driver.Str
+import Driver.Alloc
 open Driver
 
 partial def loop (c : Comp) (hin hout : IO.FS.Stream) (s : c.σ) (buf : String) (n : Nat) : IO Unit := do
@@ -29,7 +30,8 @@ def components : List (String × Comp) := [
   ("queue", QueueD.comp),
   ("slotmap", SlotMapD.comp),
   ("flatmap", FlatMapD.comp),
-  ("string", StrD.comp)
+  ("string", StrD.comp),
+  ("alloc", AllocD.comp)
 ]
 
 def main (args : List String) : IO UInt32 := do
